@@ -9,10 +9,10 @@
     values of the daily equity, and the final cash, holdings and pending orders.
     Values that the model computes through different but equal rational expressions (equity, cash)
     are related by [==] on Q; everything else is Leibniz equality. *)
-From Coq Require Import ZArith QArith String List.
+From Coq Require Import ZArith QArith String List Lia Lqa.
 From QS Require Import theories.Num theories.Position theories.Portfolio theories.Fees theories.Broker theories.Clock
   theories.Sizer theories.PCM theories.Backtest theories.Spec proofs.Ledger proofs.PcmProofs proofs.BacktestProofs
-  proofs.Refinement proofs.SpecBroker proofs.SpecRun.
+  proofs.Refinement proofs.SpecBroker proofs.SpecRun proofs.SpecProgress.
 Import ListNotations.
 Open Scope Z_scope.
 
@@ -30,6 +30,29 @@ Theorem backtest_refines_spec :
       pending_of (ss_broker s_end) = st_pending st.
 Proof. exact SpecRun.backtest_refines_spec. Qed.
 Print Assumptions backtest_refines_spec.
+
+(** ... and on a market that quotes every asset of the universe and of the weight vector at a positive
+    price at every clock instant (weights non-negative when long-only, the start not later in its day
+    than the market open) the session never raises, so the agreement is unconditional there. *)
+Theorem backtest_matches_rules_on_quoted_markets :
+  forall cfg w u market tr,
+    c_alpha cfg = AFixed w -> c_univ cfg = StaticU u -> c_lookbacks cfg = None -> NoDup (map fst w) ->
+    (c_long_only cfg = true -> Forall (fun aw => (0 <= snd aw)%Q) w) ->
+    Exchange.tod (c_start cfg) <= 52200 ->
+    (forall t k, In (t, k) (flat_map (day_events false false) (bdays (c_start cfg) (c_end cfg))) ->
+                 quoted (u ++ map fst w) (market t)) ->
+    run cfg market = Ok tr ->
+    tr_noerr tr /\
+    exists sched s_end st days,
+      schedule_of cfg = Ok sched /\ end_state cfg market = Some s_end /\
+      spec_run (spec_of cfg w u sched) market = Some (st, days) /\
+      tr_fills tr = spec_fills days /\
+      Forall2 same_equity (tr_equity tr) (spec_equity days) /\
+      (cash_of pid (ss_broker s_end) == st_cash st)%Q /\
+      held_of (ss_broker s_end) = st_hold st /\
+      pending_of (ss_broker s_end) = st_pending st.
+Proof. exact backtest_refines_spec_quoted. Qed.
+Print Assumptions backtest_matches_rules_on_quoted_markets.
 
 (** the pieces of that proof that are of independent interest *)
 
@@ -107,3 +130,19 @@ Proof.
   split; [vm_compute; reflexivity|]. split; [unfold tr_noerr; repeat constructor|]. split; reflexivity.
 Qed.
 Print Assumptions hypotheses_are_satisfiable.
+
+(** the quoted-market premise is satisfiable too: [mk8] quotes both assets positively at every instant *)
+Example quoted_premise_satisfiable : forall t, quoted (["A"%string; "B"%string] ++ ["A"%string; "B"%string])%list (mk8 t).
+Proof.
+  intros t a I.
+  assert (M7 : 0 <= (t / 86400) mod 7 < 7) by (apply Z.mod_pos_bound; lia).
+  assert (M5 : 0 <= (t / 43200) mod 5 < 5) by (apply Z.mod_pos_bound; lia).
+  assert (Q7 : (0 <= inject_Z ((t / 86400) mod 7))%Q) by (change 0%Q with (inject_Z 0); rewrite <- Zle_Qle; lia).
+  assert (Q5 : (inject_Z ((t / 43200) mod 5) <= 4)%Q) by (change 4%Q with (inject_Z 4); rewrite <- Zle_Qle; lia).
+  simpl in I. destruct I as [I|[I|[I|[I|[]]]]]; subst a; eexists; (split; [reflexivity|]).
+  - lra.
+  - assert (H : (inject_Z ((t / 43200) mod 5) / 4 == inject_Z ((t / 43200) mod 5) * (1 # 4))%Q) by field. rewrite H. lra.
+  - lra.
+  - assert (H : (inject_Z ((t / 43200) mod 5) / 4 == inject_Z ((t / 43200) mod 5) * (1 # 4))%Q) by field. rewrite H. lra.
+Qed.
+Print Assumptions quoted_premise_satisfiable.
